@@ -42,7 +42,56 @@ _SMALL = small_dags()        # 1 + 2 + 8 + 64 = 75 DAGs
 _ENUM = [(d, nder) for d in _SMALL for nder in (0, 1, 2)]
 
 
+def run_parallel_duck(spec):
+    """A step by configuration (is_step() override, listed among the processes) that runs in a worker: seen
+    through the tokens it appends to the ledger (applied in the parent) - one per phase, timestep 0, the ledger
+    it was shown includes every process update of its batch."""
+    from vmon import sched
+    from vmon.sensors import Mon, drive
+    V = Viol()
+    m = Mon()
+    Mon.cur = m
+    e = None
+    try:
+        e = sched.build(spec['sched'])
+        ok, exc = drive(e, m, spec['sched']['calls'], lambda iv: 2000)
+        V.check('no_exception', ok, lambda: ('run raised', repr(exc)[:300]))
+    except Exception as ex:
+        V.check('no_exception', False, ('engine raised', type(ex).__name__, str(ex)[:200]))
+    finally:
+        Mon.cur = None
+        if e is not None:
+            try:
+                e.end()
+            except Exception:
+                pass
+    applied = 0
+    in_phase = []
+    phases = 0
+    for ev in m.events:
+        if ev[0] == 'apply':
+            if ev[1][0] == 'zduck':
+                in_phase.append((ev[1], applied))
+            applied += 1
+        elif ev[0] == 'emit' and ev[1] == 'history':
+            phases += 1
+            V.check('once_per_phase', len(in_phase) == 1,
+                    lambda: ('the parallel step by configuration ran %d times in the phase before the row at t=%r' % (len(in_phase), ev[2]),))
+            for tok, before in in_phase:
+                V.check('timestep_zero', tok[2] == 0, lambda: ('step timestep', tok[2]))
+                V.check('sees_batch_process_updates', tok[3] == before,
+                        lambda: ('the step was shown a ledger of %d tokens, %d had been applied when its phase began' % (tok[3], before),))
+            in_phase = []
+    return {'viol': list(V), 'evals': V.evals, 'nontrivial': phases >= 3, 'classes': ['parallel_duck'], 'summary': {'phases': phases}}
+
+
 def gen(r, tier, i):
+    if i % 300 == 5:
+        from vmon import sched
+        procs = [{'pid': pid, 'ts': {'kind': 'const', 'v': r.choice([0.5, 1.0, 1.5])}} for pid in range(r.randint(1, 2))]
+        return {'family': 'parallel_duck',
+                'sched': {'procs': procs, 'calls': [[r.choice([1.0, 2.0, 2.5]), r.choice([True, False, 'update'])] for _ in range(r.randint(1, 2))] + [[1.0, 'update']],
+                          't0': 0, 'duck_step': True, 'parallel_steps': True, 'nsteps': r.randint(0, 1)}}
     if i >= len(_ENUM) * 4 and r.random() < 0.06:
         # steps (also nested ones) of compartments that are generated, divided by copying and moved: C10's
         # structural workload, judged here on the step clauses only
@@ -86,6 +135,8 @@ def gen(r, tier, i):
 
 
 def run(spec):
+    if spec.get('family') == 'parallel_duck':
+        return run_parallel_duck(spec)
     if spec.get('family') == 'structural':
         from vmon.checks import c10
         from vmon.util import harvest
